@@ -120,6 +120,7 @@ type PkgSpec struct {
 	Relies    map[string]string   // "T.mu" -> two-state predicate (old() = state at acquisition)
 	PureExt   []string
 	Immutable map[string][]string // type name -> fields never written after construction
+	GlobalWriters []string // "Cxx pkg.var func": allowed (variable, writer) pairs of the global-write inventory
 	ImmutCells []string           // deref heaps (by element type, e.g. time.Time) whose cells are written only when fresh
 	Lemmas    []*Lemma
 	RecFuncs  map[string]*RecFunc
@@ -186,7 +187,7 @@ func parseContractFile(path, pkgPath string) (*PkgSpec, error) {
 		if k := strings.Index(t, " // "); k >= 0 {
 			t = strings.TrimSpace(t[:k])
 		}
-		top := strings.HasPrefix(t, "func ") || strings.HasPrefix(t, "pred ") || strings.HasPrefix(t, "guarded_by ") || strings.HasPrefix(t, "immutable ") || strings.HasPrefix(t, "immutable_cells ") || strings.HasPrefix(t, "monitor ") || strings.HasPrefix(t, "pure ") || strings.HasPrefix(t, "lemma ") || strings.HasPrefix(t, "extern ") || strings.HasPrefix(t, "recfunc ") || strings.HasPrefix(t, "end")
+		top := strings.HasPrefix(t, "func ") || strings.HasPrefix(t, "pred ") || strings.HasPrefix(t, "guarded_by ") || strings.HasPrefix(t, "immutable ") || strings.HasPrefix(t, "immutable_cells ") || strings.HasPrefix(t, "global_writer ") || strings.HasPrefix(t, "monitor ") || strings.HasPrefix(t, "pure ") || strings.HasPrefix(t, "lemma ") || strings.HasPrefix(t, "extern ") || strings.HasPrefix(t, "recfunc ") || strings.HasPrefix(t, "end")
 		if top || clauseKW.MatchString(t) || strings.HasPrefix(t, "var ") || strings.HasPrefix(t, "assume ") || strings.HasPrefix(t, "goal ") || strings.HasPrefix(t, "smt ") || strings.HasPrefix(t, "solver ") {
 			items = append(items, item{i + 1, t})
 		} else if len(items) > 0 {
@@ -226,6 +227,8 @@ func parseContractFile(path, pkgPath string) (*PkgSpec, error) {
 			for _, f := range strings.Split(m[2], ",") {
 				ps.Guarded[m[1]] = append(ps.Guarded[m[1]], strings.TrimSpace(f))
 			}
+		case strings.HasPrefix(t, "global_writer "):
+			ps.GlobalWriters = append(ps.GlobalWriters, strings.TrimSpace(strings.TrimPrefix(t, "global_writer ")))
 		case strings.HasPrefix(t, "immutable_cells "):
 			ps.ImmutCells = append(ps.ImmutCells, strings.Fields(strings.TrimPrefix(t, "immutable_cells "))...)
 		case strings.HasPrefix(t, "immutable "):
